@@ -102,6 +102,16 @@ def borrowed_names(fn: ast.AST, roots: Iterable[str]) -> Set[str]:
                 tgts, src = [n.optional_vars], n.context_expr
             if src is None:
                 continue
+            # positional binding through zip(): `for a, b in zip(X, Y)` - a aliases X's elements, b aliases Y's
+            if elements and isinstance(src, ast.Call) and dotted(src.func) == 'zip' and len(tgts) == 1 \
+                    and isinstance(tgts[0], (ast.Tuple, ast.List)) and len(tgts[0].elts) == len(src.args):
+                for el, arg in zip(tgts[0].elts, src.args):
+                    if _aliases_of_expr(arg, borrowed, True):
+                        for name in _bind_targets(el):
+                            if name not in borrowed:
+                                borrowed.add(name)
+                                changed = True
+                continue
             if _aliases_of_expr(src, borrowed, elements):
                 for t in tgts:
                     for name in _bind_targets(t):
